@@ -486,3 +486,29 @@ func reproduceWithHistoryOnce(c Candidate, env []string) (bool, string) {
 	}
 	return v.Panic != "" || (!v.OK && !v.Out), v.Detail
 }
+
+// SubmitFresh submits n seeded requests of the given kind, each to an executor process of its own that has executed
+// nothing before (what a library does the first time in the life of a process is part of its behaviour).
+func SubmitFresh(r *Run, fam string, kind byte, n, parallel int) {
+	f := Families[fam]
+	sem := make(chan struct{}, parallel)
+	done := make(chan int64, n)
+	for tid := 1; tid <= n; tid++ {
+		sem <- struct{}{}
+		go func(tid int) {
+			defer func() { <-sem }()
+			pool := NewPool(fam, 1, func(res Result) { r.handle(f, res, nil) })
+			pool.Timeout = 120 * time.Second
+			pool.Submit([]byte(fmt.Sprintf(`%c{"seed":%d,"tid":%d}`, kind, r.Seed, tid)))
+			pool.Close()
+			done <- pool.Executed
+		}(tid)
+	}
+	var total int64
+	for i := 0; i < n; i++ {
+		total += <-done
+	}
+	r.mu.Lock()
+	r.Extra["crash_monitored"] = toInt(r.Extra["crash_monitored"]) + int(total)
+	r.mu.Unlock()
+}
